@@ -17,7 +17,7 @@ import (
 func init() {
 	register(Property{ID: "C03", Level: "proof", Run: runC03,
 		Technique: "static analysis: whole-program who-may/enumeration of PathAccessRequest constructions and SkipAuth sites, must-pass-through path conditions on the path-manager handlers (go/ssa), AST origin classification of ConfToCompare",
-		Text:      "Proof obligations over the whole module: (1) on every path of pathManager.doFindPathConf/doDescribe/doAddReader/doAddPublisher a success reply is sent only after conf.FindPathConf succeeded for the request's name and the auth manager admitted ToAuthRequest() of the same request (or SkipAuth), doAddPublisher additionally only if ConfToCompare is nil or Equal to the resolved conf; doFindPathConf never honours SkipAuth; (2) ToAuthRequest maps name/action/IP/credentials/query/protocol field by field; (3) (*path).describe/addReader/addPublisher are called only from the manager wrappers after a nil-error reply; (4) every SkipAuth:true site in the module (all build configurations that contain one) is classified: publisher sites carry a ConfToCompare that flows from the Conf of a FindPathConf(Publish:true) result, internal-reader sites are a frozen table, the CDN site is guarded by isCDN = secret configured ∧ bearer equality; any other site is a violation; (5) Publish constants match the manager call; (6) 'exactly that path and the matching action': in every boolean decision function that branches on the Path of an element of a []conf.AuthInternalUserPermission (auth.matchesPermission), no path test of an element leads to a return that may be true unless, in the same loop iteration, `thatElement.Action == request.Action` held - action and path are granted by ONE entry (decided on SSA with element identity = index value, through copies, pointers and extracted helpers). Obligations = sites x clauses.",
+		Text:      "Proof obligations over the whole module: (1) on every path of pathManager.doFindPathConf/doDescribe/doAddReader/doAddPublisher a success reply is sent only after conf.FindPathConf succeeded for the request's name and the auth manager admitted ToAuthRequest() of the same request (or SkipAuth), doAddPublisher additionally only if ConfToCompare is nil or Equal to the resolved conf; doFindPathConf never honours SkipAuth; (2) ToAuthRequest maps name/action/IP/credentials/query/protocol field by field; (3) (*path).describe/addReader/addPublisher are called only from the manager wrappers after a nil-error reply; (4) every SkipAuth:true site in the module (all build configurations that contain one) is classified: publisher sites carry a ConfToCompare that flows from the Conf of a FindPathConf(Publish:true) result, internal-reader sites are a frozen table, the CDN site is guarded by isCDN = secret configured ∧ bearer equality; any other site is a violation; (5) Publish constants match the manager call; (6) 'exactly that path and the matching action': in every boolean decision function that branches on the Path of an element of a []conf.AuthInternalUserPermission (auth.matchesPermission), no path test of an element leads to a return that may be true unless, in the same loop iteration, `thatElement.Action == request.Action` held - action and path are granted by ONE entry (decided on SSA with element identity = index value, through copies, pointers and extracted helpers); (7) 'the client's IP': on the HTTP-based servers (HLS, WebRTC, MoQ) the IP of the access request is gin's ctx.ClientIP(), which a freshly constructed engine takes from the X-Forwarded-For / X-Real-Ip header of EVERY peer; every gin engine constructed under internal/servers/ (enumerated, not listed) whose handlers can reach ClientIP() receives SetTrustedProxies(recv.<field of type conf.IPNetworks>.ToTrustedProxies()) on every path - also when the list is empty - before it is stored into a server's Handler / that server is initialised, the unexported list field only ever receives the component's TrustedProxies, and no function writes gin.Engine.TrustedPlatform / RemoteIPHeaders / ForwardedByClientIP (C03.client_ip.*, prop_r4_c04.go; the engines of the administrative endpoints are C04's); an engine none of whose handlers can reach ClientIP() (MoQ HTTP/3) is recorded as needing no list. Obligations = sites x clauses.",
 		Note:      "trusted: auth manager (C01/C02), gortsplib invariant announced path == rsession.Path()[1:], conf.Path.Equal = reflect.DeepEqual, go/ssa CFG construction; flow through struct fields is resolved per package over all stores/literal keys of that field (flow-insensitive)"})
 	addMutants(
 		Mutant{"C03", "drop-skipauth-guard-addreader", "internal/core/path_manager.go",
@@ -61,6 +61,19 @@ func init() {
 		Mutant{"C03", "action-match-sticks-to-later-entries", "internal/auth/manager.go",
 			"	for _, perm := range perms {\n		if perm.Action == req.Action {",
 			"	granted := false\n	for _, perm := range perms {\n		granted = granted || perm.Action == req.Action\n		if granted {", "C03.perm.same_entry"},
+		// round 4: the IP the manager admits is the client's own claim
+		Mutant{"C03", "hls-trusted-proxies-only-when-configured", "internal/servers/hls/http_server.go",
+			"	router.SetTrustedProxies(s.trustedProxies.ToTrustedProxies()) //nolint:errcheck\n",
+			"	if len(s.trustedProxies) > 0 {\n		router.SetTrustedProxies(s.trustedProxies.ToTrustedProxies()) //nolint:errcheck\n	}\n", "C03.client_ip.trusted_proxies"},
+		Mutant{"C03", "webrtc-trusted-proxies-dropped", "internal/servers/webrtc/http_server.go",
+			"	router.SetTrustedProxies(s.trustedProxies.ToTrustedProxies()) //nolint:errcheck\n", "", "C03.client_ip.trusted_proxies"},
+		Mutant{"C03", "moq-trusted-proxies-only-when-configured", "internal/servers/moq/http_server.go",
+			"	routerHTTP2.SetTrustedProxies(s.trustedProxies.ToTrustedProxies()) //nolint:errcheck\n",
+			"	if len(s.trustedProxies) != 0 {\n		routerHTTP2.SetTrustedProxies(s.trustedProxies.ToTrustedProxies()) //nolint:errcheck\n	}\n", "C03.client_ip.trusted_proxies"},
+		Mutant{"C03", "webrtc-proxy-list-is-everybody", "internal/servers/webrtc/server.go",
+			"		trustedProxies: s.TrustedProxies,\n", "		trustedProxies: conf.IPNetworks{{IP: net.IPv4zero, Mask: net.CIDRMask(0, 32)}},\n", "C03.client_ip.trusted_proxies"},
+		Mutant{"C03", "moq-client-ip-from-platform-header", "internal/servers/moq/http_server.go",
+			"	routerHTTP2.Use(s.middlewarePreflightRequests)\n", "	routerHTTP2.TrustedPlatform = gin.PlatformCloudflare\n	routerHTTP2.Use(s.middlewarePreflightRequests)\n", "C03.client_ip.engine_fields"},
 	)
 }
 
@@ -112,7 +125,8 @@ func runC03(c *Ctx) {
 	if p == nil {
 		return
 	}
-	c.Explain = "E1 on the four path-manager handlers and the three wrappers; E3 on ToAuthRequest (Action: evaluation under the assumption Publish == true / false, prop_gen_c03.go); the CDN SkipAuth store: dominated by a boolean receiver field whose every store in the package evaluates to false when the secret is empty or the bearer comparison fails; E2 enumeration of every defs.PathAccessRequest composite literal and SkipAuth store in the module with per-site classification (publisher / internal reader / CDN), ConfToCompare origin resolved through locals, same-package struct fields and parameters of unexported functions. linux/arm is loaded additionally because the rpicamera SkipAuth site exists only there. Rule C03.perm.same_entry (prop_r3_c03.go): two edge-filtered walks per list element of every boolean decision function that branches on a permission entry's Path - (1) from the function entry avoiding every edge on which `element.Action == request.Action` holds, (2) from each path test reached that way, staying in the element's loop iteration, to a return that is not the constant false; a hit means path and action can be granted by different entries."
+	defer dumpObls(c)
+	c.Explain = "E1 on the four path-manager handlers and the three wrappers; E3 on ToAuthRequest (Action: evaluation under the assumption Publish == true / false, prop_gen_c03.go); the CDN SkipAuth store: dominated by a boolean receiver field whose every store in the package evaluates to false when the secret is empty or the bearer comparison fails; E2 enumeration of every defs.PathAccessRequest composite literal and SkipAuth store in the module with per-site classification (publisher / internal reader / CDN), ConfToCompare origin resolved through locals, same-package struct fields and parameters of unexported functions. linux/arm is loaded additionally because the rpicamera SkipAuth site exists only there. Rule C03.perm.same_entry (prop_r3_c03.go): two edge-filtered walks per list element of every boolean decision function that branches on a permission entry's Path - (1) from the function entry avoiding every edge on which `element.Action == request.Action` holds, (2) from each path test reached that way, staying in the element's loop iteration, to a return that is not the constant false; a hit means path and action can be granted by different entries. Rule C03.client_ip.* (prop_r4_c04.go): enumeration of the gin.New()/gin.Default() calls of internal/servers/*, call-graph walk from the handlers installed on each engine (static calls, closures, bound methods, interface calls into the module; an escaping *gin.Context counts as reaching) to gin.Context.ClientIP, and for each reaching engine a barrier walk: serve points (store into a Handler field, Initialize of that server, engine.Run*) are preceded on every path by SetTrustedProxies(engine, configured list). Not decided there: that Core passes the right configuration field into the component's TrustedProxies."
 	c.Assume = []string{
 		"the auth manager decides correctly (C01, C02) apart from the entry binding of action and path, which is decided here",
 		"gortsplib: the path announced in ANNOUNCE equals ServerSession.Path() afterwards",
@@ -241,6 +255,13 @@ func runC03(c *Ctx) {
 
 	// ---- (6) action and path are granted by the same permission entry (prop_r3_c03.go)
 	c.c03SameEntry(p)
+
+	// ---- (7) "admitted the client's ... IP": on the HTTP-based media servers (HLS,
+	// WebRTC, MoQ) PathAccessRequest.IP is gin's ctx.ClientIP(); every gin engine
+	// of internal/servers/* whose handlers can reach it is given the configured
+	// proxy list on every path before it serves (prop_r4_c04.go).
+	c.Floor("C03.client_ip.trusted_proxies", c.ginClientIPR4(p, "C03", isMediaServerPkgR4), 3)
+	c.ginEngineFieldsR4(p, "C03")
 
 	// ---- (4),(5) sites, per build configuration
 	c.accessSites(p, true)
